@@ -690,6 +690,66 @@ def mon_list_agrees_with_lookup(rr):
     return out
 
 
+def gen_shared_removal_programs(r, n):
+    """C09 / C10: several keys share one content file (same bytes); the content disappears through one
+    of them (remove_fully, remove_hash) and then the others are fully removed / removed / looked up.
+    A removal that ANSWERS ok must have removed the key from lookups and listings; one that answers an
+    error must have left the key as it was."""
+    progs = []
+    for i in range(n):
+        d = G.data(r, r.pick([0, 3, 200])) + b"shared"
+        algo = r.pick(L.ALGOS)
+        ks = [b"a%d" % i, b"b%d" % i, "в%d".encode() % i][:r.randrange(2, 4)]
+        ops, rem = [], []
+        for k in ks:
+            ops.append(w_oneshot(r.pick("sa"), algo, k, d))
+        first = r.pick(["remove_fully", "remove_hash"])
+        if first == "remove_fully":
+            ops.append(f"remove_fully {r.pick('sa')} c0 {hx(ks[0])}"); rem.append((len(ops) - 1, ks[0]))
+        else:
+            ops.append(f"remove_hash {r.pick('sa')} c0 {sri_tok(algo, d)}")
+        for k in ks[1:]:
+            how = r.pick(["remove_fully", "remove_fully", "remove"])
+            ops.append(f"{how} {r.pick('sa')} c0 {hx(k)}"); rem.append((len(ops) - 1, k))
+            for fl in "sa":
+                ops.append(f"metadata {fl} c0 {hx(k)}")
+            ops.append("list c0")
+        progs.append(Program(f"sharedrm{i}", ops, tags={"removals": rem, "keys": ks, "variety": ("sharedrm", first, len(ks))}))
+    return progs
+
+
+def mon_shared_removal(rr):
+    out = []
+    t = rr.prog.tags
+    for idx, k in t.get("removals", []):
+        if idx >= len(rr.impl):
+            continue
+        res = toks(rr.impl[idx])
+        op = rr.prog.ops[idx].split(" ")
+        sig = {"op": op[0], "api": op[1]}
+        # look at the next observations of k
+        later_meta, later_list = None, None
+        for j in range(idx + 1, min(len(rr.impl), len(rr.prog.ops))):
+            o = rr.prog.ops[j].split(" ")
+            if o[0] == "metadata" and unhx(o[3]) == k and later_meta is None:
+                later_meta = (j, meta_of_line(rr.impl[j]))
+            if o[0] == "list" and later_list is None:
+                later_list = (j, list_items(rr.impl[j]))
+            if o[0] in ("remove", "remove_fully", "write") and j > idx and later_meta and later_list:
+                break
+        if later_meta is None:
+            continue
+        j, m = later_meta
+        listed = later_list is not None and later_list[1] is not None and any(
+            x.startswith("meta ") and parse_meta(x)["key"] == k for x in later_list[1])
+        if res[0] == "ok" and (m not in (None,) or listed):
+            out.append(Failure("removed_key_still_there", j, f"{op[0]} {op[1]} answered ok but the key is still "
+                               f"{'found' if m is not None else ''}{' and ' if m is not None and listed else ''}{'listed' if listed else ''}", sig=sig))
+        if res[0] == "err" and m is None:
+            out.append(Failure("failed_removal_removed", j, f"{op[0]} {op[1]} answered {' '.join(res[:3])} but the key is gone", sig=sig))
+    return out
+
+
 # ---------------------------------------------------------------------------------------------
 # C08 / C14: declared size / integrity, rejected and abandoned writers
 # ---------------------------------------------------------------------------------------------
